@@ -27,7 +27,10 @@ REPO = "/repo"
 _ALT = os.environ.get("VERIF_REPO")
 if _ALT and os.path.abspath(_ALT) != "/repo":
     REPO = os.path.abspath(_ALT)
-    _tag = "alt-" + hashlib.sha1(REPO.encode()).hexdigest()[:8]
+    # VERIF_HARNESS_SRC=<dir with src/ and compile_fail/>: use a frozen copy of the harness sources
+    # (e.g. a git worktree of an earlier /verif commit) instead of the live ones
+    _src_root = os.path.abspath(os.environ.get("VERIF_HARNESS_SRC", HARNESS))
+    _tag = "alt-" + hashlib.sha1((REPO + "|" + (_src_root if _src_root != HARNESS else "")).encode()).hexdigest()[:8]
     BUILD = os.path.join(VERIF, ".build", _tag)
     _h = os.path.join(BUILD, "harness")
     os.makedirs(_h, exist_ok=True)
@@ -39,7 +42,7 @@ if _ALT and os.path.abspath(_ALT) != "/repo":
     for _n in ("src", "compile_fail"):
         _l = os.path.join(_h, _n)
         if not os.path.islink(_l):
-            os.symlink(os.path.join(HARNESS, _n), _l)
+            os.symlink(os.path.join(_src_root, _n), _l)
     if not os.path.exists(os.path.join(_h, "Cargo.lock")):
         shutil.copy(os.path.join(HARNESS, "Cargo.lock"), os.path.join(_h, "Cargo.lock"))
     HARNESS = _h
